@@ -114,6 +114,7 @@ def run(prop, tier, seed):
     chia(v, prop, d, seed, tier)
     if prop == "C13":
         burst(v, d, drv, seed, tier)
+        start_stop_start(v, d, drv, seed)
         concurrent(v, d, drv, seed, tier)
         concurrent(v, d, vlib.build("keeper2drv"), seed, tier, drvname="keeper2drv")
     v.cov["evaluations"] = len(scen)
@@ -162,6 +163,26 @@ def chia(v, prop, d, seed, tier):
     v.cov["chia_keeper_traces_accepted"] = len(acc)
 
 
+def start_stop_start(v, d, drv, seed):
+    """C13 / C09: Stop issued before the freshly spawned plotter goroutine has run (held at its entry by a gate), then
+    Start again: Stop must wait for that goroutine, and there must never be two plotters."""
+    sc = [dict(sc=9100, seed=seed, steps=[], opt=dict(mode="startstopstart", spaces=3, init={}))]
+    sf, tf = os.path.join(d, "sss.json"), os.path.join(d, "sss.ndjson")
+    json.dump(sc, open(sf, "w"))
+    vlib.run_driver(drv, sf, tf, ["-workers", "1", "-stall", "60"], timeout=300)
+    t = vlib.read_traces(tf)[0]
+    ev = [e for e in t["ev"] if e.get("a") == "StartStopStart"]
+    if not ev or t.get("dead"):
+        raise vlib.Machinery("StartStopStart schedule did not run: %s" % t.get("note"))
+    e = ev[0]
+    v.cov["start_stop_start"] = {k: e.get(k) for k in ("stop_returned_before_plotter_ran", "max_plotters_alive", "plotters_after_stop", "stop", "final_stop")}
+    if e.get("stop_returned_before_plotter_ran") or e.get("max_plotters_alive", 0) > 1 or e.get("plotters_after_stop", 0) != 0 or e.get("final_stop") != "ok" or e.get("stop", "ok") != "ok":
+        v.classify(dict(cause="start_stop_start", tag="C13-stop-before-plotter-scheduled"),
+                   "Start; Stop before the plotter goroutine ran; Start: Stop returned early=%s, plotters alive at once=%s, left after the final Stop=%s (stop=%s, final stop=%s)" % (
+                       e.get("stop_returned_before_plotter_ran"), e.get("max_plotters_alive"), e.get("plotters_after_stop"), e.get("stop"), e.get("final_stop")),
+                   dict(scenario=sc[0], event=e))
+
+
 def concurrent(v, d, drv, seed, tier, only=None, drvname="keeperdrv"):
     """C13: concurrent callers on the real keeper while the plotter runs freely; also on a race-detector build."""
     if only is None:
@@ -207,6 +228,10 @@ def replay(prop, path, seed):
     vlib.prep_specs(d)
     drv = vlib.build("keeperdrv")
     r = json.load(open(path))["replay"]
+    if r["scenario"].get("opt", {}).get("mode") == "startstopstart":
+        start_stop_start(v, d, drv, seed)
+        v.cov.update(states=1, transitions=1, evaluations=1, distinct_nontrivial=1)
+        return v.finish()
     if r["scenario"].get("opt", {}).get("mode") == "conc":
         concurrent(v, d, drv, seed, "quick", only=r["scenario"])
         v.cov.update(states=1, transitions=1, evaluations=1, distinct_nontrivial=1)
